@@ -226,6 +226,11 @@ class PreprocessorData:
         fail as soon as the program no longer fits the memory, instead of generating ops (or padding) that can't be
         placed anyway - e.g. a huge 'pad' / 'rep' would otherwise keep the assembler busy (nearly) forever.
         """
+        if self.curr_address < 0:
+            raise FlipJumpAssemblerException(
+                f"A negative address was reached ({hex(self.curr_address)}): "
+                f"a segment address or a reserve size can't take the code below address 0."
+            )
         if self.curr_address > (1 << self.memory_width):
             raise FlipJumpAssemblerException(
                 f"Not enough space with the {self.memory_width}-bits memory-width "
